@@ -310,6 +310,9 @@ func (m *Manager) AssignAddress(ctx context.Context, sessionID string, ipv4PoolI
 		}
 
 		m.mu.Lock()
+		if session.IPv4 != nil && !session.IPv4.Equal(ip) {
+			delete(m.byIP, session.IPv4.String()) // address changed: drop the old index entry
+		}
 		session.IPv4 = ip
 		session.SubnetMask = mask
 		session.Gateway = gateway
